@@ -116,15 +116,77 @@ impl Prop for Histories {
     }
 }
 
-pub const RULE_C04: &str = "cases = (format, document (mostly well-formed; FASTQ also with one defect at a generated record), capacity absolute or aimed at record boundaries, permissive policy, chunk/interrupt script, history of 0..24 operations over {next, records() step, read_record_set(slot 0..2), read_record_set_exact(slot, n in 1..20), seek to a record, seek to a position reported earlier, into_records()}). Oracle: strict cursor model (exactly once, in order, content equal to the reference record, k >= 1 for plain sets, k = min(n, remaining) for exact sets, end only with nothing left, untouched slots unchanged, refilled slot = new batch only, error only after all preceding records). Non-trivial = the history uses >= 2 read kinds and (switches kind right after a set read, or an exact read crosses the end, or a slot is refilled with fewer records than it held). Distinct = hash(case).";
+pub const RULE_C04: &str = "cases = (format, document (mostly well-formed; FASTQ also with one defect at a generated record), capacity absolute or aimed at record boundaries, permissive policy, chunk/interrupt script, history of 0..24 operations over {next, records() step, read_record_set(slot 0..2), read_record_set_exact(slot, n in 1..20), seek to a record, seek to a position reported earlier, into_records()}). Oracle: strict cursor model (exactly once, in order, content equal to the reference record, k >= 1 for plain sets, k = min(n, remaining) for exact sets, end only with nothing left, untouched slots unchanged, refilled slot = new batch only, error only after all preceding records). Exhaustive sub-check: every operation sequence of length <= 4 (thorough: 5) over an 8-operation alphabet x 6 fixed small documents x 7 capacities. Non-trivial = the history uses >= 2 read kinds and (switches kind right after a set read, or an exact read crosses the end, or a slot is refilled with fewer records than it held). Distinct = hash(case).";
 
-pub const RULE_C05: &str = "cases as for C04 but seek-heavy (about 40 % seeks), long leading blank regions, capacities smaller and larger than the distance to the target. Oracle: after next() the reported position equals the model's (line, byte) of that record; after a set read a reported position equals the coordinates of the next unread record (or of the invalid FASTQ group); after a seek the reads follow the cursor model from the target (seeking to an invalid FASTQ record reproduces its error). Non-trivial = >= 1 seek followed by >= 1 read that returned a record. Distinct = hash(case).";
+pub const RULE_C05: &str = "cases as for C04 but seek-heavy (about 40 % seeks), long leading blank regions, capacities smaller and larger than the distance to the target. Oracle: after next() the reported position equals the model's (line, byte) of that record; after a set read a reported position equals the coordinates of the next unread record (or of the invalid FASTQ group); after a seek the reads follow the cursor model from the target (seeking to an invalid FASTQ record reproduces its error). Exhaustive sub-check as for C04, with positions compared. Non-trivial = >= 1 seek followed by >= 1 read that returned a record. Distinct = hash(case).";
+
+/// Complete small scope: every history of length <= L over an 8-operation alphabet x fixed small documents x
+/// capacities, checked by the same cursor model.
+fn exhaustive_histories(run: &mut Run, positions: bool, max_len: u32) {
+    let docs: Vec<(Format, &'static [u8])> = vec![
+        (Format::Fasta, b">a\nAC\n>b\nG\nT\n>c\n"),
+        (Format::Fasta, b"\n>a x\r\nAC\r\n\r\n>b"),
+        (Format::Fasta, b"\n\n\n\n>a\nACGTACGT\n>b\nA"),
+        (Format::Fastq, b"@a\nAC\n+\nII\n@b\nG\n+\nI\n@c\n\n+\n\n"),
+        (Format::Fastq, b"@a\r\nAC\r\n+\r\nII\r\n@b\r\nG\r\n+\r\nI"),
+        (Format::Fastq, b"@a\nAC\n+\nII\n@b\nG\n-\nI\n@c\nA\n+\nI\n"),
+    ];
+    let alphabet: Vec<Op> = vec![Op::Next, Op::Owned, Op::ReadSet(0), Op::ReadSet(1), Op::ReadExact(0, 1), Op::ReadExact(1, 2), Op::Seek(0), Op::Seek(u16::MAX)];
+    let caps: Vec<usize> = vec![3, 4, 5, 7, 11, 16, 64];
+    let k = alphabet.len() as u64;
+    let mut total = 0u64;
+    let mut starts = Vec::new();
+    for l in 0..=max_len {
+        starts.push(total);
+        total += k.pow(l);
+    }
+    let space = format!(
+        "all operation sequences of length 0..={} over {{next, records() step, read_record_set(slot 0/1), read_record_set_exact(slot 0, 1), read_record_set_exact(slot 1, 2), seek(first record), seek(last target)}} x {} fixed small documents (LF/CRLF, blank lines, missing final terminator, one with an invalid separator) x capacities {:?}",
+        max_len,
+        docs.len(),
+        caps
+    );
+    let sub = if positions { "exhaustive-short-histories-positions" } else { "exhaustive-short-histories" };
+    run.exhaustive_par(sub, &space, total, move |i, ctx| {
+        let mut l = 0usize;
+        while l + 1 < starts.len() && starts[l + 1] <= i {
+            l += 1;
+        }
+        let mut x = i - starts[l];
+        let mut ops = Vec::with_capacity(l);
+        for _ in 0..l {
+            ops.push(alphabet[(x % k) as usize].clone());
+            x /= k;
+        }
+        for (format, doc) in &docs {
+            let m = Model::build(*format, doc);
+            for &cap in &caps {
+                ctx.eval();
+                let c = Case { format: *format, input: B(doc.to_vec()), cap, policy: PolKind::Std, script: Script::default(), ops: ops.clone() };
+                let verdict = crate::engine::guarded(|| {
+                    let spec = RunSpec { input: &c.input, cap: c.cap, policy: c.policy, script: &c.script, ops: &c.ops, model: &m };
+                    let t = run_ops_fmt(c.format, &spec);
+                    livelock_check(fmt_name(c.format), &t)?;
+                    check_strict(&m, &t, positions).map(|_| ())
+                });
+                if let Err(f) = verdict {
+                    return Err((serde_json::to_value(&c).unwrap(), f));
+                }
+                if l >= 2 {
+                    ctx.nontrivial(&(format, doc, cap, &ops), &serde_json::json!({"format": format, "input": crate::util::esc(doc), "cap": cap, "ops": format!("{:?}", ops)}));
+                }
+            }
+        }
+        Ok(())
+    });
+}
 
 pub fn run_c04(tier: Tier) -> i32 {
     let mut run = Run::new("C04", tier, "exploration");
     let p = Histories { seek_weight: 2, positions: false };
     run.replays("history-cursor-model", &p);
     run.generated("history-cursor-model", &p, tier.pick(200_000, 3_000_000));
+    exhaustive_histories(&mut run, false, if tier == Tier::Quick { 4 } else { 5 });
     run.finish(RULE_C04, &["reference model M_fa/M_fq", "no faults, permissive policies (faults: C14, refusals: C09, totality: C06)"])
 }
 
@@ -133,12 +195,15 @@ pub fn run_c05(tier: Tier) -> i32 {
     let p = Histories { seek_weight: 24, positions: true };
     run.replays("seek-position-model", &p);
     run.generated("seek-position-model", &p, tier.pick(200_000, 3_000_000));
+    exhaustive_histories(&mut run, true, if tier == Tier::Quick { 4 } else { 5 });
     run.finish(RULE_C05, &["reference model M_fa/M_fq gives the true coordinates", "seek targets are record starts (and the invalid FASTQ group) only"])
 }
 
 pub fn replay_c04(run: &mut Run, file: &std::path::Path) -> Option<bool> {
     run.replay_file("history-cursor-model", &Histories { seek_weight: 2, positions: false }, file, true)
+        .or_else(|| run.replay_file("exhaustive-short-histories", &Histories { seek_weight: 2, positions: false }, file, true))
 }
 pub fn replay_c05(run: &mut Run, file: &std::path::Path) -> Option<bool> {
     run.replay_file("seek-position-model", &Histories { seek_weight: 24, positions: true }, file, true)
+        .or_else(|| run.replay_file("exhaustive-short-histories-positions", &Histories { seek_weight: 24, positions: true }, file, true))
 }
